@@ -38,7 +38,13 @@ pub fn size_classes(plain: &[u8], case: &mut Case) {
 fn check(s: &Sharing, case: &mut Case) -> Result<(), Fail> {
     let p = s.assemble();
     super::c02::classes_of(&p, case);
+    // names by one of three public routes; in a fifth of the packets NSEC windows are stored in descending order
+    // (the writers emit them ascending, so the model and the plain form are unaffected)
+    let v = (p.id % 3) as u8 | if p.id % 5 == 0 { 4 } else { 0 };
+    let route = build_variant(v);
     let pk = lib("build", || build(&p))?.map_err(|e| Fail::new("harness:build", e))?;
+    drop(route);
+    case.class(format!("build-route-{}", v));
     // the statement relates the compressed form to the plain one: a packet whose plain form is refused, does not
     // parse or does not show the model is C02's business and makes no claim here
     let u = match ser_plain(&pk) {
